@@ -416,6 +416,16 @@ def _run_adapter(case):
                     viol.append(("C10:adapter:%s:%s:%s" % (adapter, how, what), dict(case, expr=expr, how=how),
                                  {"expr": expr, "how": how, "with_selector": len(ogot), "post_filter": len(want),
                                   "exc_with": repr(gexc)[:100], "exc_post": repr(wexc)[:100]}))
+        # reading WITHOUT a selector after all those reads with one gives what the very first plain read gave (the same path / url
+        # string was opened with selectors in between: nothing of them may stick to it)
+        again, aexc = read_all(adapter, p)
+        if obs_list(again) != oplain or aexc is not None:
+            viol.append(("C10:adapter:%s:plain-read-differs-after-reads-with-selectors" % adapter, case, {"first": len(oplain), "now": len(again), "exc": repr(aexc)[:100]}))
+        if adapter in QUERY_DOOR:
+            again, aexc = read_all(adapter, p, "False", via_query=True)
+            again2, aexc2 = read_all(adapter, p)
+            if again or obs_list(again2) != oplain:
+                viol.append(("C10:adapter:%s:plain-read-differs-after-reads-with-selectors:uri-query" % adapter, case, {"with_False": len(again), "plain_now": len(again2)}))
     finally:
         try:
             os.unlink(p)
